@@ -745,6 +745,26 @@ func (c *FnCtx) finishPath(st *State, explicit bool) {
 			c.oblige(st, "frame", o.Name(), eq(app(cur.Sort+".val", cur.S), app(old.Sort+".val", old.S)), c.spec.Props, "pointee of "+o.Name()+" is unchanged (not listed in modifies)")
 		}
 	}
+	// frame: package-level variables assigned on this path are listed in modifies (callers rely on the list)
+	for o, cur := range st.vars {
+		v, ok := o.(*types.Var)
+		if !ok || v.Pkg() == nil || v.Parent() != v.Pkg().Scope() {
+			continue
+		}
+		old, ok2 := c.entry.vars[o]
+		if !ok2 || cur.S == old.S {
+			continue
+		}
+		listed := false
+		for _, m := range c.spec.Modifies {
+			if m == v.Name() {
+				listed = true
+			}
+		}
+		if !listed {
+			c.oblige(st, "frame", "g."+v.Name(), eq(cur.S, old.S), c.spec.Props, "package-level variable "+v.Name()+" is unchanged (not listed in modifies)")
+		}
+	}
 	c.oblige(st, "cover", fmt.Sprintf("return%d", c.retPaths), "false", c.spec.Props, "return path reachable")
 	c.obls[len(c.obls)-1].ExpectSat = true
 	c.obls[len(c.obls)-1].ID = c.fi.Key + "#cover.return"
